@@ -64,6 +64,8 @@ def run(chk):
     x86order.index_scale_seen(chk, emit, UNIT)
     from lib import ubsigned
     ubsigned.run(chk, [emit], floor=3)
+    from lib import evexsiblings
+    evexsiblings.run(chk)
     fd = chk.facts(DBUNIT, tables=r"asmjit::x86::InstDB::(_inst_info_table|main_opcode_table|alt_opcode_table)$", enums=r"asmjit::x86::Inst::Id$|asmjit::x86::Opcode::Bits$")
     OB = {n: v for n, v in fd["enums"]["asmjit::x86::Opcode::Bits"]["enumerators"]}
     rows = fd["tables"]["asmjit::x86::InstDB::_inst_info_table"]["value"]
